@@ -175,6 +175,11 @@ fn case_strategy(tier: Tier) -> BoxedStrategy<Case> {
         .prop_map(|(toks, sels, mu)| {
             let pattern = render(&toks);
             let mut name = instance(&toks, &sels);
+            // now and then the candidate is the pattern's own text (a glob with a bracket set
+            // does not match itself)
+            if sels[0] % 16 == 0 {
+                name = pattern.clone();
+            }
             if let Some((k, s)) = mu {
                 name = mutate(&name, k, s);
             }
@@ -275,6 +280,7 @@ fn real_strategy(_t: Tier) -> BoxedStrategy<Case> {
                 0..=3 => format!("{}{}", lit, ver),
                 4..=5 => mutate(&format!("{}{}", lit, ver), mk, sel),
                 6 => format!("{}x-{}", lit.trim_end_matches('-'), ver),
+                7 => pattern.clone(),
                 _ => nm.to_string(),
             };
             Case { pattern, name }
